@@ -89,6 +89,10 @@ theorem isAdj_adjoint (S : Finset Loc) (p : Stmt) :
   | seq a b iha ihb =>
     intro ρ hs hc
     simp only [safe, Bool.and_eq_true] at hs
+    have e1 : sem (.seq a b) ρ = fun x => sem b ρ (sem a ρ x) := by funext x; simp only [sem]
+    have e2 : sem (adjoint (.seq a b)) ρ = fun y => sem (adjoint a) ρ (sem (adjoint b) ρ y) := by
+      funext y; simp only [adjoint, sem]
+    rw [e1, e2]
     exact IsAdj.comp (iha ρ hs.1 hc.1) (ihb ρ hs.2 hc.2)
   | assign lhs ts =>
     intro ρ hs hc
@@ -97,11 +101,11 @@ theorem isAdj_adjoint (S : Finset Loc) (p : Stmt) :
     intro ρ hs hc
     simp only [safe, Closed] at hs hc
     by_cases h : eval c ρ ≠ 0
-    · simp only [h, if_true] at hs hc
+    · rw [if_pos h] at hs hc
       have e1 : sem (.ite c t f) ρ = sem t ρ := by funext a; simp [sem, h]
       have e2 : sem (adjoint (.ite c t f)) ρ = sem (adjoint t) ρ := by funext a; simp [adjoint, sem, h]
       rw [e1, e2]; exact iht ρ hs hc
-    · simp only [h, if_false] at hs hc
+    · rw [if_neg h] at hs hc
       have e1 : sem (.ite c t f) ρ = sem f ρ := by funext a; simp only [sem, h, if_false]
       have e2 : sem (adjoint (.ite c t f)) ρ = sem (adjoint f) ρ := by
         funext a; simp only [adjoint, sem, h, if_false]
@@ -174,9 +178,7 @@ theorem safe_of_staticallySafe (p : Stmt) (h : staticallySafe p = true) : ∀ ρ
     rcases this with h1 | h1
     · exact Or.inl h1
     · right
-      simp only [decide_eq_true_eq, ARef.loc]
-      intro hc
-      exact h1 (congrArg Prod.fst hc)
+      exact decide_eq_true (fun hc => h1 (congrArg Prod.fst hc))
   | ite c t f iht ihf =>
     intro ρ; simp only [staticallySafe, Bool.and_eq_true] at h
     simp only [safe]; split
